@@ -10,6 +10,7 @@ the output of the reference configuration of the same word size; octet-level ops
 ACROSS word sizes.  A configuration whose CPU feature is missing is reported as skipped, never as
 passed.  -O levels, NDEBUG and the SIMD bash-f variants are covered by this differential only.
 """
+import time
 import os, random, importlib
 import vcommon
 from vcommon import VERIF
@@ -114,13 +115,38 @@ def gen_fixed(ctx, fn, exe, w, salt):
         ctx.rng = saved
 
 
-def run_tolerant(ctx, exe, ops, limit=400):
+def run_guarded(ctx, exe, ops, timeout):
+    """ctx.run_lines with a wall-clock guard: an op on which the process does not return within `timeout`
+    seconds is answered `HANG` (a configuration that loops for ever on an input is a disagreement like any
+    other) and the stream continues behind it in a fresh process; after 2 hangs the run stops."""
+    import subprocess
+    out, pos, hangs = [], 0, 0
+    while pos < len(ops):
+        try:
+            o, err, rc = ctx.run_lines(exe, ops[pos:], timeout=timeout)
+        except subprocess.TimeoutExpired as te:
+            so = te.stdout or ""
+            if isinstance(so, bytes):
+                so = so.decode("utf-8", "replace")
+            done = so.split("\n")[:-1]
+            k = min(len(done), len(ops) - pos - 1)
+            out += done[:k] + ["HANG"]
+            hangs += 1
+            pos += k + 1
+            if hangs >= 2:
+                return out, "HANG (no answer within %d s) x%d, last at op: %s" % (timeout, hangs, ops[pos - 1][:200]), 1
+            continue
+        return out + o, err, rc
+    return out, "", 0
+
+
+def run_tolerant(ctx, exe, ops, limit=400, timeout=3600):
     """run an op stream on an assertion-enabled build: an op that trips a library ASSERT (the generators also
     emit calls outside the documented preconditions, which a release build answers with garbage-in/garbage-out
     or an error code) is marked `ASSERT` and the stream continues in a fresh process.  Any other crash stops."""
     out, pos, asserts = [], 0, 0
     while pos < len(ops):
-        o, err, rc = ctx.run_lines(exe, ops[pos:])
+        o, err, rc = run_guarded(ctx, exe, ops[pos:], timeout)
         if rc == 0 and len(o) == len(ops) - pos:
             return out + o, asserts, None
         k = min(len(o), len(ops) - pos - 1)
@@ -139,6 +165,7 @@ def compare(ref, out):
 
 
 def run(ctx):
+    T0 = time.time()
     proof_ok, log = ctx.prove(["Bee2V.C19.Props"], PROPS, drivers=[])
     c64, c32, cbash, skipped = cfg_plan(ctx.tier)
     ctx.cov["configs_64"] = c64
@@ -159,10 +186,11 @@ def run(ctx):
             jobs.append((harness, cfg, "%s-%s" % (area, cfg)))
     with ThreadPoolExecutor(max_workers=8) as ex:
         list(ex.map(lambda j: cc_once(ctx, j[0], j[1], j[2]), jobs))
+    ctx.cov["t_build_compile_s"] = round(time.time() - T0, 1)
+    # phase A (sequential: generators draw from ctx.rng): one fixed op stream per (area, word size)
+    streams = {}
     for salt, (area, harness, driver, fn, uses_bash) in enumerate(areas):
-        have_driver = os.path.exists(ctx.driver(driver))
-        refs = {}
-        for w, cfgs, refcfg in ((64, c64 + (cbash if uses_bash else []), "asan"), (32, c32, "w32")):
+        for w, refcfg in ((64, "asan"), (32, "w32")):
             refexe = cc_once(ctx, harness, refcfg, "%s-%s" % (area, refcfg))
             ops = gen_fixed(ctx, fn, refexe, w, salt * 10 + (w == 32))
             cap = QUICK_CAP if ctx.tier == "quick" else THOROUGH_CAP
@@ -172,7 +200,24 @@ def run(ctx):
                 rest = ops[200:]
                 step = -(-len(rest) // (cap - 200))
                 ops = head + rest[::step]
-            ref_out, err, rc = ctx.run_lines(refexe, ops)
+            streams[(area, w)] = ops
+    ctx.cov["t_generate_s"] = round(time.time() - T0, 1)
+    # phase B (areas in parallel): replay
+    import threading
+    lock = threading.Lock()
+    tot = [0]
+
+    def do_area(item):
+        salt, (area, harness, driver, fn, uses_bash) = item
+        total = 0
+        have_driver = os.path.exists(ctx.driver(driver))
+        refs = {}
+        for w, cfgs, refcfg in ((64, c64 + (cbash if uses_bash else []), "asan"), (32, c32, "w32")):
+            refexe = cc_once(ctx, harness, refcfg, "%s-%s" % (area, refcfg))
+            ops = streams[(area, w)]
+            t0 = time.time()
+            ref_out, err, rc = run_guarded(ctx, refexe, ops, 900 if ctx.tier == "quick" else 3600)
+            guard = int(max(300, 20 * (time.time() - t0)))
             if rc != 0 or len(ref_out) != len(ops):
                 disagreements.append((area, refcfg, "crash", ops[min(len(ref_out), len(ops) - 1)], "CRASH rc=%d %s" % (rc, err[-200:]), ""))
                 continue
@@ -181,9 +226,7 @@ def run(ctx):
                 l_out, lerr, lrc = ctx.run_lines(ctx.driver(driver), ops)
                 for i in compare(ref_out, l_out)[:3]:
                     disagreements.append((area, refcfg, "vs-model", ops[i], ref_out[i] if i < len(ref_out) else "", l_out[i] if i < len(l_out) else ""))
-            for cfg in cfgs:
-                if cfg == refcfg:
-                    continue
+            def one_cfg(cfg):
                 exe = cc_once(ctx, harness, cfg, "%s-%s" % (area, cfg))
                 use = ops
                 if cfg in cbash:
@@ -191,7 +234,11 @@ def run(ctx):
                     ref_use = [r for o, r in zip(ops, ref_out) if o.split()[0] in ("bashf", "hash", "prg")] if ctx.tier == "quick" else ref_out
                 else:
                     ref_use = ref_out
-                out, nass, crash = run_tolerant(ctx, exe, use)
+                out, nass, crash = run_tolerant(ctx, exe, use, timeout=guard)
+                return cfg, use, ref_use, out, nass, crash
+            with ThreadPoolExecutor(max_workers=6) as ex:
+                results = list(ex.map(one_cfg, [c for c in cfgs if c != refcfg]))
+            for cfg, use, ref_use, out, nass, crash in results:
                 total += len(use)
                 per["%s/%s" % (area, cfg)] = len(use)
                 if nass:
@@ -206,7 +253,7 @@ def run(ctx):
         if 64 in refs and 32 in refs and area not in NO_CROSS:
             ops64, ref64 = refs[64]
             exe32 = cc_once(ctx, harness, "w32", "%s-w32" % area)
-            out32, err, rc = ctx.run_lines(exe32, ops64)
+            out32, err, rc = run_guarded(ctx, exe32, ops64, guard)
             total += len(ops64)
             wordspec = {}
             for i in compare(ref64, out32):
@@ -219,6 +266,13 @@ def run(ctx):
                 i = idx[0]
                 disagreements.append((area, "w32", "vs-asan(64-bit stream)", ops64[i], out32[i] if i < len(out32) else "", ref64[i]))
             ctx.cov["cross_word_size_word_specific_families_" + area] = sorted(f for f in wordspec if f in allowed)
+        with lock:
+            tot[0] += total
+    with ThreadPoolExecutor(max_workers=4) as ex:
+        list(ex.map(do_area, list(enumerate(areas))))
+    total = tot[0]
+    ctx.cov["t_replay_s"] = round(time.time() - T0, 1)
+    disagreements.sort(key=lambda d: (d[0], d[1], d[2], d[3]))
     ctx.cov["ops_total"] = total
     ctx.cov["ops_per_area_config"] = per
     ctx.cov["distinct_nontrivial"] = len(per)
